@@ -58,6 +58,62 @@ fn type_prefix(prefix: &str, ctx: &str) -> Option<String> {
     Some(out)
 }
 
+/// Known mechanisms by which inserted text is read back differently (see C01's ESC findings):
+/// the name of the mechanism a name triggers in a quoting context, or None.
+fn family(name: &str, ctx: &str, prefix: &str) -> Option<&'static str> {
+    if prefix.contains('|') {
+        // the completer splits the word at `|` (so that `ls|wc<TAB>` completes a command name)
+        return Some("typed-prefix-contains-a-pipe-character");
+    }
+    let pc: Vec<char> = prefix.chars().collect();
+    if pc.windows(2).any(|w| w[0] == ' ' && w[1] == '~') {
+        return Some("typed-prefix-has-a-blank-followed-by-tilde");
+    }
+    if ctx == "unq" && pc.windows(2).any(|w| w[0] == '$' && (w[1].is_ascii_alphabetic() || w[1] == '_')) {
+        return Some("unquoted:prefix-that-looks-like-a-variable-reference-is-completed-unescaped");
+    }
+    let chars: Vec<char> = name.chars().collect();
+    let dollar_ref = chars.windows(2).any(|w| w[0] == '$' && (w[1].is_alphanumeric() || w[1] == '_' || w[1] == '$' || w[1] == '?' || w[1] == '{' || w[1] == '('));
+    let bq_pair = chars.iter().filter(|c| **c == '`').count() >= 2;
+    match ctx {
+        "unq" => {
+            if name.starts_with('~') {
+                Some("unquoted:leading-tilde-is-not-protected")
+            } else if bq_pair {
+                Some("unquoted:escaped-backquote-pair-is-run")
+            } else if dollar_ref && !name.starts_with('$') || (name.starts_with('$') && chars.iter().skip(1).collect::<String>().contains('$') && dollar_ref && chars.windows(2).skip(1).any(|w| w[0] == '$')) {
+                Some("unquoted:escaped-dollar-not-at-word-start-is-expanded")
+            } else if name.contains('*') {
+                Some("unquoted:escaped-star-is-globbed")
+            } else if name.ends_with('&') {
+                Some("unquoted:escaped-ampersand-as-last-word-backgrounds")
+            } else if name.contains('{') && name.contains(',') && name.contains('}') {
+                Some("unquoted:escaped-braces-are-expanded")
+            } else {
+                None
+            }
+        }
+        "dq" => {
+            if name.ends_with('\\') {
+                Some("double-quoted:trailing-backslash-escapes-the-closing-quote")
+            } else if dollar_ref {
+                Some("double-quoted:dollar-reference-in-name-is-expanded")
+            } else if bq_pair {
+                Some("double-quoted:backquote-pair-in-name-is-run")
+            } else {
+                None
+            }
+        }
+        _ => {
+            if name.contains('\'') {
+                Some("single-quoted:name-contains-a-single-quote")
+            } else {
+                None
+            }
+        }
+    }
+}
+
 fn class_of(name: &str) -> String {
     let mut cs: Vec<char> = name.chars().filter(|c| !c.is_alphanumeric()).collect();
     cs.sort();
@@ -85,6 +141,7 @@ pub fn main(args: &[String]) {
     let mut sh = v::Shell::new();
     let mut total = 0u64;
     let mut judged = 0u64;
+    let mut untypable = 0u64;
     let mut failures: BTreeMap<String, (u64, String)> = BTreeMap::new();
     let mut idx = 0u64;
     for len in 1..=maxlen {
@@ -120,11 +177,28 @@ pub fn main(args: &[String]) {
                 if !made {
                     continue;
                 }
-                for ctx in ["unq", "dq", "sq"] {
-                    let first: String = name.chars().take(1).collect();
-                    let typed_word = match type_prefix(&first, ctx) {
+                let nchars = name.chars().count();
+                for (ctx, plen) in ["unq", "dq", "sq"].iter().flat_map(|c| (1..=nchars).map(move |k| (*c, k))) {
+                    let first: String = name.chars().take(plen).collect();
+                    // how would a user type this prefix here?  Take the first spelling (escaped as usual, or raw)
+                    // that cicada's own tokenizer reads back as the intended prefix; if there is none the
+                    // prefix cannot be typed in this context and the case says nothing about completion.
+                    let open = match ctx { "dq" => "\"", "sq" => "'", _ => "" };
+                    let mut typed_word = None;
+                    let each_escaped: String = first.chars().map(|c| format!("\\{}", c)).collect();
+                    for cand in [type_prefix(&first, ctx), Some(format!("{}{}", open, first)), Some(format!("{}{}", open, each_escaped))].into_iter().flatten() {
+                        let ok = panic::catch_unwind(AssertUnwindSafe(|| {
+                            let t = v::parse_line(&cand).tokens;
+                            t.len() == 1 && t[0].1 == first
+                        })).unwrap_or(false);
+                        if ok {
+                            typed_word = Some(cand);
+                            break;
+                        }
+                    }
+                    let typed_word = match typed_word {
                         Some(x) => x,
-                        None => continue,
+                        None => { untypable += 1; continue; }
                     };
                     total += 1;
                     let typed = format!("vp_argv {}", typed_word);
@@ -152,7 +226,7 @@ pub fn main(args: &[String]) {
                             // the user closes the quote after a directory
                             line.push(if ctx == "dq" { '"' } else { '\'' });
                         }
-                        let cl = v::CommandLine::from_line(line.trim_end_matches(' ').trim_end_matches(|c| c == ' '), &mut sh)
+                        let cl = v::CommandLine::from_line(&line, &mut sh)
                             .map_err(|e| format!("line-rejected:{}", e.chars().take(20).collect::<String>()))?;
                         if cl.commands.len() != 1 || cl.background || !cl.commands[0].redirects_to.is_empty() || cl.commands[0].redirect_from.is_some() {
                             return Err("inserted-text-acts-as-operator".to_string());
@@ -173,7 +247,10 @@ pub fn main(args: &[String]) {
                         Err(_) => Some("panic".to_string()),
                     };
                     if let Some(e) = err {
-                        let sig = format!("C20:inprocess:{}:chars={}:{}{}", ctx, class_of(&name), e, if is_dir { ":dir" } else { "" });
+                        let sig = match family(&name, ctx, &first) {
+                            Some(f) => format!("C20:{}", f),
+                            None => format!("C20:inprocess:{}:chars={}:{}{}", ctx, class_of(&name), e, if is_dir { ":dir" } else { "" }),
+                        };
                         let ent = failures.entry(sig).or_insert((0, name.clone()));
                         ent.0 += 1;
                         if name.len() < ent.1.len() {
@@ -192,5 +269,82 @@ pub fn main(args: &[String]) {
         out.push_str(&format!("{{\"signature\":{},\"count\":{},\"example\":{}}}", jstr(sig), n, jstr(ex)));
     }
     out.push(']');
-    println!("{{\"maxlen\":{},\"cases\":{},\"judged\":{},\"failures\":{}}}", maxlen, total, judged, out);
+    println!("{{\"maxlen\":{},\"cases\":{},\"judged\":{},\"prefix_cannot_be_typed\":{},\"failures\":{}}}", maxlen, total, judged, untypable, out);
+}
+
+
+/// candidate sets: complete_path must offer exactly the entries starting with the typed prefix
+/// (directories only when completing for `cd`)
+pub fn cand_main(args: &[String]) {
+    let dir = args[0].clone();
+    unsafe {
+        let fd = libc::open(b"/dev/null\0".as_ptr() as *const libc::c_char, libc::O_WRONLY);
+        if fd >= 0 {
+            libc::dup2(fd, 2);
+        }
+    }
+    panic::set_hook(Box::new(|_| {}));
+    let pops: Vec<Vec<(&str, bool)>> = vec![
+        vec![("alpha", false), ("alps", false), ("alp", true), ("beta", false), ("be ta", false), ("b", true), (".hid", false)],
+        vec![("x1", false), ("x2", false), ("x", false), ("xdir", true), ("xd2", true), ("y", true)],
+        vec![("é1", false), ("éa", true), ("e", false), ("中文", false), ("中", true)],
+        vec![("only", false)],
+        vec![("d1", true), ("d2", true), ("d-3", true), ("f1", false), ("f-2", false), ("a.b", false), ("a.c", false), ("a-b", false),
+             ("a b", false), ("a", true), ("ab", true), ("abc", false)],
+    ];
+    let mut total = 0u64;
+    let mut failures: BTreeMap<String, (u64, String)> = BTreeMap::new();
+    for (pi, pop) in pops.iter().enumerate() {
+        let d = format!("{}/p{}", dir, pi);
+        let _ = fs::remove_dir_all(&d);
+        fs::create_dir_all(&d).unwrap();
+        std::env::set_current_dir(&d).unwrap();
+        for (n, isd) in pop {
+            if *isd { fs::create_dir(n).unwrap(); } else { fs::File::create(n).unwrap(); }
+        }
+        let mut prefixes: Vec<String> = vec![String::new()];
+        for (n, _) in pop {
+            let cs: Vec<char> = n.chars().collect();
+            for k in 1..=cs.len().min(3) {
+                prefixes.push(cs[..k].iter().collect());
+            }
+        }
+        prefixes.push("zz".to_string());
+        prefixes.sort();
+        prefixes.dedup();
+        for pre in &prefixes {
+            for for_dir in [false, true] {
+                total += 1;
+                let typed: String = pre.chars().map(|c| if c == ' ' { "\\ ".to_string() } else { c.to_string() }).collect();
+                let mut want: Vec<String> = pop.iter().filter(|(n, isd)| n.starts_with(pre.as_str()) && (!for_dir || *isd)).map(|(n, _)| n.to_string()).collect();
+                want.sort();
+                let got = panic::catch_unwind(AssertUnwindSafe(|| {
+                    let mut g: Vec<String> = v::complete_path(&typed, for_dir).iter().map(|c| {
+                        let t = v::parse_line(&c.completion).tokens;
+                        if t.len() == 1 { t[0].1.clone() } else { c.completion.clone() }
+                    }).collect();
+                    g.sort();
+                    g
+                }));
+                let bad = match got {
+                    Ok(g) => if g == want { None } else if g.len() > want.len() { Some("offers-entries-that-do-not-match") } else if g.len() < want.len() { Some("misses-matching-entries") } else { Some("offers-different-entries") },
+                    Err(_) => Some("panic"),
+                };
+                if let Some(b) = bad {
+                    let sig = format!("C20:candidates:{}:{}", if for_dir { "for-cd" } else { "for-path" }, b);
+                    let e = failures.entry(sig).or_insert((0, format!("population {} prefix {:?}", pi, pre)));
+                    e.0 += 1;
+                }
+            }
+        }
+    }
+    let mut out = String::from("[");
+    for (i, (sig, (n, ex))) in failures.iter().enumerate() {
+        if i > 0 {
+            out.push(',');
+        }
+        out.push_str(&format!("{{\"signature\":{},\"count\":{},\"example\":{}}}", jstr(sig), n, jstr(ex)));
+    }
+    out.push(']');
+    println!("{{\"candidate_queries\":{},\"failures\":{}}}", total, out);
 }
